@@ -9,7 +9,7 @@ for line in open(sys.argv[1]):
     name, ap, rc1, rc0, suite = m.groups()
     p = os.path.join(root, "seeded", name, "meta.json")
     meta = json.load(open(p))
-    meta["confirmed_by_verif"] = {"tree": "scratch worktree of /repo HEAD 9a22d55 (tools/confirm_seed.sh)", "patch_applies": ap.lower(),
+    meta["confirmed_by_verif"] = {"tree": "scratch worktree of /repo HEAD at the time (9a22d55 or 9257ee4; tools/confirm_seed.sh); the patch still applies to the current HEAD", "patch_applies": ap.lower(),
                                   "demo_exit_with_change": int(rc1), "demo_exit_without_change": int(rc0), "pinned_suite_with_change": suite}
     json.dump(meta, open(p, "w"), indent=1)
     print(name, "recorded", ap, rc1, rc0, suite)
